@@ -19,10 +19,11 @@ LEVEL = "exploration"
 REQUIRED_CLASSES = ["geometry-ok", "params-ok"]
 RULE = ("geometry: sizes^3 x resolutions^3 x target chunk sizes x max_scales "
         "(quick: 5 sizes, 7 resolutions, targets {2,64}; thorough: 7 sizes, "
-        "11 resolutions, 5 targets, max_scales {None,3}; a fixed 1/50 slice "
+        "11 resolutions, 6 targets, max_scales {None,3}; a fixed 1/50 slice "
         "additionally goes through generate_scales_info end to end); "
         "parameters: type x encoding x data_type x channels through "
-        "set_info_params + fill + get_encoder. Sub-claims: distinct keys; "
+        "set_info_params + fill + get_encoder, also for descriptions that "
+        "already carry an encoding, a type, a block size or a second scale. Sub-claims: distinct keys; "
         "size/resolution = full size and resolution by a per-axis "
         "power-of-two factor, non-decreasing, steps of 1 or 2; power-of-two "
         "chunk sizes with about target^3 voxels; last scale within two "
@@ -45,7 +46,7 @@ SIZES_T = [1, 2, 63, 129, 1000, 4097, 10 ** 9]
 RES_Q = [0.8, 1, 1.2, 2, 3, 8, 100]
 RES_T = [0.8, 1, 1.2, 1.5, 2, 3, 4, 16, 1000, 21166.67, 20000]
 TARGETS_Q = [2, 64]
-TARGETS_T = [1, 2, 8, 64, 256]
+TARGETS_T = [1, 2, 4, 8, 64, 256]
 
 
 def _is_pow2(n):
@@ -199,7 +200,12 @@ def check_info(col, case, info, size, res, target, max_scales):
         except Exception as exc:
             why = repr(exc)
         if why:
-            bad("consecutive-scales-incompatible-with-pyramid-computation",
+            cls = ("empty-half-chunk" if "is empty" in why else
+                   "needs-more-than-two-old-chunks" if "more than two" in why
+                   else "not-tiled-by-old-chunks" if "not tiled" in why
+                   else "other")
+            bad("consecutive-scales-incompatible-with-pyramid-computation/"
+                + cls,
                 "compatible chunk sizes", {"pair": k, "why": why,
                                            "old": scales[k]["chunk_sizes"],
                                            "new": scales[k + 1][
@@ -255,12 +261,17 @@ def _via_file(info, target, max_scales, typ=None, enc=None):
 
 
 def _eval_params(col, typ, enc, dtype, nch, pre_enc, pre_type,
-                 extra_scale=False):
+                 extra_scale=False, pre_block=None):
     case = {"kind": "params", "type": typ, "encoding": enc,
             "data_type": dtype, "channels": nch, "input_encoding": pre_enc,
             "input_type": pre_type}
     size, res = (130, 70, 33), (1.0, 1.0, 2.0)
     info = base_info(size, res, enc=pre_enc or "raw", dtype=dtype, nch=nch)
+    if pre_block is not None:
+        # the full-resolution description already carries a block size
+        case["input_block_size"] = list(pre_block)
+        info["scales"][0]["compressed_segmentation_block_size"] = \
+            list(pre_block)
     if extra_scale:
         # a source description with a left-over second scale is legal: only
         # the first one is used
@@ -317,6 +328,14 @@ def _eval_params(col, typ, enc, dtype, nch, pre_enc, pre_type,
         ok = False
         col.violation("C08/params/missing-block-size", case,
                       "block size in every scale", "missing")
+    elif eff_enc == "compressed_segmentation" and pre_block is not None \
+            and any(s["compressed_segmentation_block_size"]
+                    != list(pre_block) for s in out["scales"]):
+        ok = False
+        col.violation("C08/params/given-block-size-not-kept", case,
+                      list(pre_block),
+                      [s["compressed_segmentation_block_size"]
+                       for s in out["scales"]])
     c2 = dict(case)
     if not check_info(col, c2, out, size, res, 64, None):
         ok = False
@@ -345,7 +364,7 @@ def space(tier):
             "targets": len(targets), "max_scales": len(ms),
             "geometry_product": len(sizes) ** 3 * len(ress) ** 3
             * len(targets) * len(ms),
-            "params_product": 3 * 4 * 5 * 3 * (4 * 2 + 1)}
+            "params_product": 3 * 4 * 5 * 3 * (4 * 2 + 1 + 4)}
 
 
 def run_unit(u):
@@ -376,6 +395,11 @@ def run_unit(u):
                                              pre_enc, pre_type)
                         _eval_params(col, typ, enc, dtype, nch, "raw",
                                      None, extra_scale=True)
+                        for pre_block in ([8, 8, 8], [4, 4, 2]):
+                            for pre_enc in (None, "compressed_segmentation"):
+                                _eval_params(col, typ, enc, dtype, nch,
+                                             pre_enc, None,
+                                             pre_block=pre_block)
         col.sample({"kind": "params", "type": None,
                     "encoding": "compressed_segmentation",
                     "data_type": "uint16", "channels": 1})
@@ -391,5 +415,6 @@ def replay(case):
     else:
         _eval_params(col, case["type"], case["encoding"], case["data_type"],
                      case["channels"], case["input_encoding"],
-                     case["input_type"], case.get("extra_scale", False))
+                     case["input_type"], case.get("extra_scale", False),
+                     case.get("input_block_size"))
     return col.records()
